@@ -1,6 +1,8 @@
 package checks
 
 import (
+	"bwverif/ref"
+
 	"context"
 	"fmt"
 	"math/rand"
@@ -169,6 +171,43 @@ func c04Probe() []*bq.Stmt {
 	}
 }
 
+// c04IndexCheck compares, for every graph, the compound-index lookups of every
+// listed triple with the same selection applied to the listing.
+func c04IndexCheck(ctx context.Context, r *rt.Rec, st storage.Store, data bq.Data, kind string, w func() map[string]interface{}) {
+	for gname, ts := range data {
+		g, err := st.Graph(ctx, gname)
+		if err != nil {
+			continue
+		}
+		seen := map[string]bool{}
+		for _, t := range ts {
+			for _, q := range []ref.Query{
+				{Method: "Objects", S: t.Subject(), P: t.Predicate()},
+				{Method: "Subjects", P: t.Predicate(), O: t.Object()},
+				{Method: "PredicatesForSubjectAndObject", S: t.Subject(), O: t.Object()},
+				{Method: "TriplesForSubject", S: t.Subject()},
+				{Method: "TriplesForObject", O: t.Object()},
+			} {
+				k := q.String() + q.Method
+				if seen[k] {
+					continue
+				}
+				seen[k] = true
+				want, _ := ref.Lookup(ts, q, storage.DefaultLookup)
+				got, _, _ := ref.Call(ctx, g, q, storage.DefaultLookup)
+				sortStrings(got)
+				r.Count("index_lookups_compared", 1)
+				if strings.Join(got, "\x1c") != strings.Join(want, "\x1c") {
+					ww := w()
+					ww["graph"], ww["lookup"], ww["lookup_returns"], ww["listing_gives"] = gname, q.String(), len(got), len(want)
+					r.Violation("index-inconsistent/"+q.Method+"/after-"+kind, fmt.Sprintf("after the statement, %s on %s returns %d results while the graph's listing holds %d matching triples", q, gname, len(got), len(want)), ww)
+					return
+				}
+			}
+		}
+	}
+}
+
 func c04Run(r *rt.Rec, rng *rand.Rand, nseq int, probe bool) {
 	ctx := context.Background()
 	for si := 0; si < nseq; si++ {
@@ -246,6 +285,13 @@ func c04Run(r *rt.Rec, rng *rand.Rand, nseq int, probe bool) {
 				break
 			}
 			ca := canonData(after)
+			// what a graph holds is also what its indexed lookups serve: after a
+			// statement that removes triples (and now and then after any other) the
+			// S+P, P+O and S+O lookups of every listed triple are compared with the
+			// listing
+			if s.Kind == "delete" || s.Kind == "deconstruct" || rng.Intn(6) == 0 {
+				c04IndexCheck(ctx, r, st, after, s.Kind, w)
+			}
 			unchanged := func(except map[string]bool) bool {
 				ok := true
 				for g := range cb {
